@@ -110,6 +110,17 @@ fn run_one(case: &Value, dir: &str, seed: u64, delay_us: u64) -> Value {
 						let s1 = verif::event("vtx_end", b as usize);
 						return json!({"t": t, "k": "ValidateTx", "b": b, "s0": s0, "s1": s1, "ok": v.is_ok()});
 					}
+					if r % 3 == 0 && n % 4 == 3 {
+						// the paginated UTXO scan behind the node API: one consistent view of size, outputs and proofs
+						let s0 = verif::event("scan_start", 0);
+						let v = chain.unspent_outputs_by_pmmr_index(1, 100_000, None);
+						let s1 = verif::event("scan_end", 0);
+						return match v {
+							Ok((highest, _last, outs)) => json!({"t": t, "k": "Scan", "s0": s0, "s1": s1, "ok": true,
+								"cnt": outs.len(), "nl": grin_core::core::pmmr::n_leaves(highest)}),
+							Err(e) => json!({"t": t, "k": "Scan", "s0": s0, "s1": s1, "ok": false, "cnt": 0, "nl": 0, "err": format!("{:?}", e)}),
+						};
+					}
 					if r % 3 == 0 {
 						// read under the txhashset read lock: position in the log = its r_acq event
 						let s0 = verif::event("read_start", c as usize);
